@@ -26,6 +26,23 @@
 // entry points, a failing path that still writes, paths that disagree, a status operation
 // inside a loop or a goroutine, an unsupported statement in an inlined function.
 //
+// Function values.  A call through a local that, at that point of the path, holds a function
+// literal written in a function the execution is inside of (`f := func(...) {...}; f(x)`,
+// `defer f()`, a literal bound to a parameter of an inlined function) is resolved: the
+// literal's body is executed in the environment it captured, so whatever it does -- status
+// operations, Work, nothing -- lands in the program where the call is.  A call through
+// anything else (a parameter of a function that is not inlined, a struct field, an interface
+// method, a method of something other than the receiver) has an unknown target and is
+// skipped; that is sound for WRITES of the word because (i) every atomic write of the word
+// anywhere in the package, function literals included, must have been executed by this very
+// run from the two entry points, else the run fails ("written outside"); (ii) plain accesses
+// fail package-wide; (iii) a function that writes the word may not be used as a function or
+// method value, nor called by name on a receiver other than the bare receiver identifier;
+// (iv) a literal that touches the word or runs node functions may not be handed to a
+// function that is not followed, started as a goroutine, or called after the function it
+// was written in has returned.  An unknown target can therefore only be user code or
+// read-only library code: part of whatever phase (Work, Handlers) surrounds the call.
+//
 // Markers: Work is a call of the method `recompute` or of `parallelBatch` (the recompute
 // loop of Stabilize; parallelStabilize's batches); Handlers is a loop over
 // `handleAfterStabilization` (stabilizeEndRunUpdateHandlers).
